@@ -250,7 +250,7 @@ func TestC08(t *testing.T) {
 			rebuild := func(ls []c08Layer) {
 				data = append(data[:parts.apxStart:parts.apxStart], c08Build(ls, attacker, ctx)...)
 			}
-			op := c.Weighted("op", 8, 6, 8, 5, 6, 5, 5, 7, 8, 5, 4, 7, 3, 3, 6)
+			op := c.Weighted("op", 8, 6, 8, 5, 6, 5, 5, 7, 8, 5, 4, 7, 3, 3, 6, 6)
 			switch op {
 			case 0:
 				i := c.Uniform("flip.body", parts.msgStart, parts.authStart-1)
@@ -437,6 +437,25 @@ func TestC08(t *testing.T) {
 				data = append(data[:parts.apxStart:parts.apxStart], c08Build(ls, atk.ID, ctx)...)
 				deliverLink = V.Links[atk.IP()]
 				opName = fmt.Sprintf("attacker-wraps-%d-own-layers", n)
+			case 15: // the delivering peer signs its own record again, with other labels (valid)
+				if len(layers) >= 1 && layers[0].att.Router.IP == attacker.Addr.IP {
+					ls := append([]c08Layer(nil), layers...)
+					ls[0].att.ForwardLabel = m.SwitchLabel(c.Int("relabel.f", 1, 70000) % 65536)
+					ls[0].att.ReturnLabel = m.SwitchLabel(c.Int("relabel.r", 1, 70000) % 65536)
+					if ls[0].att.ForwardLabel == 0 {
+						ls[0].att.ForwardLabel = 1
+					}
+					if ls[0].att.ReturnLabel == 0 {
+						ls[0].att.ReturnLabel = 1
+					}
+					if c.Bool("relabel.delay") {
+						ls[0].att.Delay = uint16(c.Int("relabel.d", 0, 200))
+					}
+					rebuild(ls)
+					opName, level = "peer-re-signs-own-record-with-other-labels", 1
+				} else {
+					opName = "unmodified"
+				}
 			case 14: // an extra inner hop that names a router known to V, under the forger's key
 				var cands []*ids.Identity
 				for _, n := range ms.nodes {
@@ -511,6 +530,12 @@ func TestC08(t *testing.T) {
 				if len(diffSnap(before, after, true)) > 0 && len(vlayers) < 100 {
 					c08CheckRoute(c, ms, V, h.origin, delivering, vlayers, opName)
 				}
+				// An accepted announcement is the newest word of its signers: a route
+				// over exactly this relay sequence must not keep labels or delays from
+				// an earlier announcement.
+				if accepted && len(vlayers) < 100 {
+					c08CheckNotStale(c, ms, V, h.origin, delivering, vlayers, opName)
+				}
 			}
 			nt := usesTwo || level >= 2
 			c.Eval(fmt.Sprintf("%s|k=%d|level=%d", opName, len(layers), level), nt, func() any {
@@ -540,6 +565,34 @@ func TestC08(t *testing.T) {
 			c.Note("genuine frame refused: %v", res.RouterErrs)
 		}
 	})
+}
+
+// c08CheckNotStale: a route to origin via the delivering peer over exactly the
+// attached routers carries exactly the delay and labels attached now.
+func c08CheckNotStale(c *core.Case, ms *mesh, V *vnet.Node, origin, delivering netip.Addr, layers []c08Layer, what string) {
+	want := len(layers) + 2
+	for _, e := range V.Rtr.Table().VerifEntries() {
+		if e.DstIP != origin || e.NextHop != delivering || len(e.Path.Hops) != want || e.Source != m.RouteSourceGossip {
+			continue
+		}
+		same := true
+		for i, l := range layers {
+			if e.Path.Hops[1+i].Router != l.att.Router.IP {
+				same = false
+			}
+		}
+		if !same {
+			continue
+		}
+		for i, l := range layers {
+			hop := e.Path.Hops[1+i]
+			if hop.Delay != l.att.Delay || hop.ForwardLabel != l.att.ForwardLabel || hop.ReturnLabel != l.att.ReturnLabel {
+				e := e
+				c.Fatalf("%s announcement of n%d accepted via n%d, but the route over the same routers still lists hop n%d with delay %d labels %d/%d; signed now: delay %d labels %d/%d (route: %s)",
+					what, ms.idx[origin], ms.idx[delivering], ms.idx[hop.Router], hop.Delay, hop.ForwardLabel, hop.ReturnLabel, l.att.Delay, l.att.ForwardLabel, l.att.ReturnLabel, tableEntryString(&e, false))
+			}
+		}
+	}
 }
 
 // c08CheckRoute: among V's routes to origin via the delivering peer there must
